@@ -67,7 +67,9 @@ def confirm(srcdir, slot):
     rc2, o2 = sh("cargo build --offline --no-default-features 2>&1 | tail -3", cwd=repo, env=env)
     res["builds"] = "error" not in o1 and "error" not in o2
     rc, out = sh("cargo test --workspace --no-fail-fast --offline 2>&1 | grep -E '^test result|FAILED|^error'", cwd=repo, env=env)
-    res["suite_passes_with_patch"] = ("FAILED" not in out and "error" not in out and "33 passed" in out)
+    # the 33 existing tests pass (a patch may bring an extra unit test of its own along)
+    m = re.search(r"test result: ok\. (\d+) passed", out)
+    res["suite_passes_with_patch"] = ("FAILED" not in out and "error" not in out and m is not None and int(m.group(1)) >= 33)
     shutil.copy(os.path.join(srcdir, "demo.rs"), os.path.join(repo, "tests", "demo.rs"))
     def demo():
         outs = []
